@@ -2,7 +2,7 @@
    and the statement of DecodeProvider.Run that installs the empty-pass guard (core/provider/decoder.go), as re-read by
    `translate jsondecode` (Gen/JsonDecodeGen.v), are the variant the model (Model/JsonDecode.v, jd_current = jd_tree) and
    its theorems are about: an error that comes with data is not noted, the guard is installed whatever passes says, and
-   the guard has a Read of its own that keeps an io.EOF that comes with data back (repair PENDING-COMMIT; a tree without
+   the guard has a Read of its own that keeps an io.EOF that comes with data back (repair c78f643; a tree without
    that method reads jv_defers_eof = false and json_decode_source_is_model no longer checks). *)
 From Coq Require Import List Arith Bool Lia.
 From PV Require Import Model.JsonDecode Proofs.JsonDecodeProofs Gen.JsonDecodeGen.
